@@ -6,7 +6,7 @@ import ast
 
 class Contract:
     def __init__(self, key, requires=(), ensures=(), yields=(), raises=None, raises_iff=(), loops=None,
-                 props=(), inherits=None, unfold=(), lemmas=(), note="", trusted=False, decreases=None, abstract=False, defines=()):
+                 props=(), inherits=None, unfold=(), lemmas=(), note="", trusted=False, decreases=None, abstract=False, defines=(), heavy=False):
         self.key = key  # "module:Class.method"
         self.requires = list(requires)
         self.ensures = list(ensures)
@@ -22,6 +22,7 @@ class Contract:
         self.trusted = trusted  # assumed, not verified (listed in trusted_base)
         self.decreases = decreases
         self.defines = list(defines)  # naming clauses `result == f(args)`: assumed at call sites, not checked (see note)
+        self.heavy = heavy  # attempted in the thorough tier only (does not discharge within the quick budget)
         self.abstract = abstract  # abstract method: no body; every override is verified against it
 
     def parsed(self, clause: str) -> ast.expr:
